@@ -30,6 +30,8 @@ CFG = {
     "module": "Swat4.Properties.C01",
     "theorems": [
         "Swat4.C01.C01_main",
+        "Swat4.C01.C01_main_bounded",
+        "Swat4.C01.C01_oversize_no_reply",
         "Swat4.C01.sdkDecode_pack",
         "Swat4.C01.sdkDecode_pack_marshalled",
         "Swat4.C01.parse_encodeReq",
@@ -41,6 +43,8 @@ CFG = {
         "Swat4.C01.facts_parse_ok",
         "Swat4.C01.known_nulFree",
         "Swat4.C01.gameKey_eq",
+        "Swat4.BrowserReqBridge.newRequest_eq",
+        "Swat4.BrowserReqBridge.facts_agree",
     ],
     "shards": (4, 16),
     "nontrivial": _c01_nontrivial,
@@ -60,7 +64,7 @@ CFG = {
         "the SDK server-list framing rules (Spec/ServerList.lean) and the SDK cipher (Spec/GOA.lean) are transcriptions from knowledge of the GameSpy SDK; its sources are not available offline",
         "no listed server has the address 255.255.255.255 (the SDK's end-of-list marker); addr.New rejects it (C17)",
         "the selection (live, master status, filter) is property C03: C01_main takes the selected list as a parameter; the harness plants only fresh master-status records and sends an empty filter",
-        "TCP framing (one Read of at most 2048 bytes), IPv6 peers and JSON storage of info strings (invalid UTF-8 is coerced on storage; the check reads the registry back before the request) are outside the model",
+        "the handler's single Read into a 2048-byte buffer is modelled as 'the first 2048 bytes sent' (C01_main_bounded / C01_oversize_no_reply); TCP segmentation (a request delivered in several segments is cut at the first by the same code), IPv6 peers and JSON storage of info strings (invalid UTF-8 is coerced on storage; the check reads the registry back before the request) are outside the model",
         "listing order is Go map order: the model is run in the order the reply lists the servers; the oracle compares entries as multisets",
     ],
     "trusted_base": COMMON_TRUSTED + [
@@ -68,7 +72,7 @@ CFG = {
         "generated Facts.lean section `browsing` (whitelist via go/ast cross-checked against the compiled filter.IsQueryField, field cap, minimum length, Info schema via reflection with params.GetParamName)",
     ],
     "manifest": {
-        "text": "Lean theorem C01_main: for every well-formed list request (encodeReq/WfReq) with 1..MaxAllowedNumberOfFields known fields, every requester address, every list of selected servers (well-typed records, none with the all-ones address) and every 23 cipher header draws, the model of Handler.process replies, and the reply decrypted by the SDK reference cipher (C02) and decoded by the independently written SDK framing decoder is exactly the promised list: requester IPv4 and port mod 65536, the known fields in request order, one entry per selected server with IPv4, uint16 query port and the stored value of every declared field (ints decimal, bools 0/1, empty for a missing field, NUL bytes dropped), end marker, nothing after it. sdkDecode_pack: the same for packServers alone, any <=255 NUL-free field names and any schema with distinct names; sdkDecode_pack_marshalled: without the typing hypothesis (servers whose Info does not marshal are skipped). parse_encodeReq: NewRequest on a well-formed request filters through the whitelist before the cap, in request order. parse_total: NewRequest never indexes/slices out of range and its field loop terminates, for every input. facts_ok/facts_parse_ok: the side conditions on the generated whitelist, cap, minimum length and Info schema. The model is tied to the code by differential runs of browsing.NewRequest and of the real browser.Handler over loopback TCP against registries planted through the real repository; the SDK decoder is also run on the Go bytes.",
+        "text": "Lean theorem C01_main: for every well-formed list request (encodeReq/WfReq) with 1..MaxAllowedNumberOfFields known fields, every requester address, every list of selected servers (well-typed records, none with the all-ones address) and every 23 cipher header draws, the model of Handler.process replies, and the reply decrypted by the SDK reference cipher (C02) and decoded by the independently written SDK framing decoder is exactly the promised list: requester IPv4 and port mod 65536, the known fields in request order, one entry per selected server with IPv4, uint16 query port and the stored value of every declared field (ints decimal, bools 0/1, empty for a missing field, NUL bytes dropped), end marker, nothing after it. C01_main_bounded: the same with the handler's 2048-byte read explicit, for requests of at most 2048 bytes; C01_oversize_no_reply: a well-formed request longer than 2048 bytes fails NewRequest's length test (ErrInvalidRequestFormat) and gets no reply. sdkDecode_pack: the same for packServers alone, any <=255 NUL-free field names and any schema with distinct names; sdkDecode_pack_marshalled: without the typing hypothesis (servers whose Info does not marshal are skipped). parse_encodeReq: NewRequest on a well-formed request filters through the whitelist before the cap, in request order. parse_total: NewRequest never indexes/slices out of range and its field loop terminates, for every input. BrowserReqBridge.newRequest_eq: the model of NewRequest used here and the independently written one used by C06 (BrowserReq06.newRequest) return the same outcome class and field list on every byte string. facts_ok/facts_parse_ok: the side conditions on the generated whitelist, cap, minimum length and Info schema. The model is tied to the code by differential runs of browsing.NewRequest and of the real browser.Handler over loopback TCP against registries planted through the real repository; the SDK decoder is also run on the Go bytes.",
         "level_note": "Trusted: Lean kernel; axioms propext, Quot.sound, Classical.choice; the SDK framing/cipher references as the definition of 'stock client'; the finite differential run as evidence that Model/Browsing.lean behaves like the Go code; generated Facts.lean.",
         "technique": "Lean 4 proof (round-trip by structural induction with scanner lemmas; composition with C02) + differential correspondence",
         "design_ref": "DESIGN.md §5 C01",
